@@ -1,6 +1,7 @@
 (* C11 - Exhaustive search evaluates each reveal set once, correctly; finds the optimum.
    Statements only; proofs in theories/SearchProofs.v (and CombsProofs.v for itertools.combinations). *)
 From ICG Require Import Prelude Bits Table Bounds GameOps SAKnowledge Shapley Exploit Norms Env Combs CombsProofs Search SearchProofs SASound SAMSpec SearchMono SearchCurve.
+From ICG Require Import Greedy GreedyInst ScaleProofs.
 
 (* the enumeration: every set of at most m still-unknown coalitions exactly once, by increasing size *)
 Theorem C11_sequences :
@@ -107,3 +108,95 @@ Example C11_nontrivial :
   /\ sr_value CCached GExploit 3 t v (sr_minimal 3) [5; 3]%N = sr_value CRef GExploit 3 init_table v (sr_minimal 3) [3; 5; 3]%N
   /\ sr_value CCached GExploit 3 t v (sr_minimal 3) [3]%N = Some 4.
 Proof. vm_compute. auto. Qed.
+
+(* ---------- scale-freeness (positive homogeneity), theories/ScaleProofs.v ----------
+   sc_rel c t t' : every row of t' has the flag of the row of t and both bounds == c times its bounds.
+   sc_opt_rel / sc_optq_rel : both sides raise, or both return and the results are related / the second value is
+   the factor times the first.  sc_gfac g c = c for exploitability, l1, l-infinity and c*c for the squared l2 norm. *)
+
+(* every computer (any number of SAM rounds), every n, c >= 0, no hypothesis on which coalitions are known:
+   the computed tables are related; the four gaps of related tables (hence of the computed ones) are homogeneous *)
+Theorem C11_scale_free_bounds_and_gaps :
+  forall (c : Q) (comp : computer) (n : nat) (t t' : table),
+    0 <= c -> sc_rel c t t' ->
+    sc_opt_rel c (compute comp n t) (compute comp n t')
+    /\ (forall g, sc_optq_rel (sc_gfac g c) (ev_gap g n t) (ev_gap g n t'))
+    /\ (forall g, sc_optq_rel (sc_gfac g c)
+                    (match compute comp n t with Some t1 => ev_gap g n t1 | None => None end)
+                    (match compute comp n t' with Some t1 => ev_gap g n t1 | None => None end))
+    /\ (sc_optq_rel c (ex_exploit_tab n t) (ex_exploit_tab n t')
+        /\ nm_l1 n (nm_width_tab t') == c * nm_l1 n (nm_width_tab t)
+        /\ nm_linf n (nm_width_tab t') == c * nm_linf n (nm_width_tab t)
+        /\ nm_l2sq n (nm_width_tab t') == c * c * nm_l2sq n (nm_width_tab t)).
+Proof. exact sc_scale_free. Qed.
+Print Assumptions C11_scale_free_bounds_and_gaps.
+
+(* the value the searches report for a reveal set on a game multiplied by c (sc_vals c v v': v' reads as c * v) *)
+Theorem C11_value_scale_free :
+  forall c comp g n t1 t2 v v' kn seq, 0 <= c -> sc_vals c v v' ->
+    sc_optq_rel (sc_gfac g c) (sr_value comp g n t1 v kn seq) (sr_value comp g n t2 v' kn seq).
+Proof. exact sc_sr_value. Qed.
+Print Assumptions C11_value_scale_free.
+
+(* best states, column level: all candidate gap columns multiplied by c > 0 (no candidate mean equal to the placeholder
+   -1 on either side): every recorded entry has the same sequence and its column is multiplied by c
+   (or is the untouched placeholder on both sides) *)
+Theorem C11_best_states_scale_free :
+  forall (c : Q) (max_steps reps : nat) (cands cands' : list (list N * list Q)),
+    0 < c -> Forall2 (sc_cand_rel c) cands cands' ->
+    (forall x, In x cands -> ~ sr_mean (snd x) == -1 /\ ~ c * sr_mean (snd x) == -1) ->
+    Forall2 (sc_best_rel c) (sr_best_states max_steps reps cands) (sr_best_states max_steps reps cands').
+Proof. exact sc_best_states_scale. Qed.
+Print Assumptions C11_best_states_scale_free.
+
+(* what that means for the report: same sequences, mean curve multiplied by c (placeholders stay at -1) *)
+Theorem C11_best_states_scale_free_report :
+  forall c R R', Forall2 (sc_best_rel c) R R' ->
+    map sb_seq R' = map sb_seq R
+    /\ Forall2 (fun b b' => (sr_mean (sb_col b) == -1 /\ sr_mean (sb_col b') == -1)
+                            \/ sr_mean (sb_col b') == c * sr_mean (sb_col b)) R R'.
+Proof. exact sc_best_states_report. Qed.
+Print Assumptions C11_best_states_scale_free_report.
+
+(* game level: every sampled game multiplied by the same c > 0, candidates = reveal sets with their gap columns *)
+Theorem C11_best_states_scale_free_games :
+  forall c comp g n games games' kn max_steps reps (seqs : list (list N)),
+    0 < c -> Forall2 (sc_vals c) games games' ->
+    (forall s, In s seqs -> 0 <= sr_mean (eg_value comp g n games kn s)) ->
+    Forall2 (sc_best_rel (sc_gfac g c))
+      (sr_best_states max_steps reps (map (fun s => (s, eg_value comp g n games kn s)) seqs))
+      (sr_best_states max_steps reps (map (fun s => (s, eg_value comp g n games' kn s)) seqs)).
+Proof. exact sc_best_states_games. Qed.
+Print Assumptions C11_best_states_scale_free_games.
+
+(* a 3-player game and the same game multiplied by 2^-10: related input tables, both sides of the computed bounds
+   (lower, upper in id order), of the four gaps, and of the best-states report over two sampled games *)
+Example C11_scale_free_nontrivial :
+  let c := 1 # 1024 in
+  let v := [0; 1; 1; 3; 1; 2; 4; 9] in let w := [0; 2; 1; 3; 2; 5; 3; 10] in
+  let v' := map (Qmult c) v in let w' := map (Qmult c) w in
+  let t := sr_apply init_table v (sr_minimal 3) in
+  let t' := sr_apply init_table v' (sr_minimal 3) in
+  let show o := match o with
+                | Some t1 => map (fun s => (Qred (lo (get t1 s)), Qred (hi (get t1 s)))) (alln 3)
+                | None => [] end in
+  let gaps G := map (fun g => match compute CCached 3 G with Some t1 => ev_gap g 3 t1 | None => None end)
+                    [GExploit; GL1; GL2; GLinf] in
+  let cands G := map (fun s => (s, eg_value CRef GL1 3 G (sr_minimal 3) s)) (sr_sequences 3 t (Some 2%nat)) in
+  sc_rel c t t' /\ Forall2 (sc_vals c) [v; w] [v'; w']
+  /\ show (compute CRef 3 t) = [(0, 0); (1, 1); (1, 1); (2, 8); (1, 1); (2, 8); (2, 8); (9, 9)]
+  /\ show (compute CRef 3 t') = [(0, 0); (1 # 1024, 1 # 1024); (1 # 1024, 1 # 1024); (1 # 512, 1 # 128);
+                                 (1 # 1024, 1 # 1024); (1 # 512, 1 # 128); (1 # 512, 1 # 128); (9 # 1024, 9 # 1024)]
+  /\ show (compute (CSam 1) 3 t) = [(0, 0); (1, 1); (1, 1); (9, 1); (1, 1); (9, 1); (9, 1); (9, 9)]
+  /\ show (compute (CSam 1) 3 t') = [(0, 0); (1 # 1024, 1 # 1024); (1 # 1024, 1 # 1024); (9 # 1024, 1 # 1024);
+                                     (1 # 1024, 1 # 1024); (9 # 1024, 1 # 1024); (9 # 1024, 1 # 1024); (9 # 1024, 9 # 1024)]
+  /\ gaps t = [Some 6; Some 18; Some 108; Some 6]
+  /\ gaps t' = [Some (3 # 512); Some (9 # 512); Some (27 # 262144); Some (3 # 512)]   (* 6/2^10, 18/2^10, 108/2^20, 6/2^10 *)
+  /\ map (fun b => (sb_seq b, sb_col b)) (sr_best_states 3 2 (cands [v; w]))
+     = [([], [18; 15]); ([3%N], [12; 10]); ([3%N; 5%N], [6; 5]); ([], [-1; -1])]
+  /\ map (fun b => (sb_seq b, sb_col b)) (sr_best_states 3 2 (cands [v'; w']))
+     = [([], [9 # 512; 15 # 1024]); ([3%N], [3 # 256; 5 # 512]); ([3%N; 5%N], [3 # 512; 5 # 1024]); ([], [-1; -1])].
+Proof.
+  split; [apply sc_sr_apply; apply sc_vals_map|]. split; [apply (sc_games_map (1 # 1024) [_; _])|].
+  vm_compute. repeat split; reflexivity.
+Qed.
